@@ -18,7 +18,7 @@ static void set_object(int kind, uint32_t S, int content)
         for (uint32_t i = 0; i < S; i++) DomB[i] = (uint8_t)(content ? (0xFF - (i * 5) % 251) : (1 + (i * 3) % 250));
         impl_value(O_DOMB, MV[O_DOMB]);
     } else {
-        for (uint32_t i = 0; i < S; i++) StrV[i] = (uint8_t)(content ? ('z' - (i % 26)) : ('a' + (i % 26)));
+        for (uint32_t i = 0; i < S; i++) StrV[i] = (uint8_t)(content ? (0xFF - (i % 120)) : ('a' + (i % 26)));     /* content 1: bytes >= 88h only (a string is bytes, not signed chars) */
         StrV[S] = 0; OBJ[O_STRV].size = S;
         impl_value(O_STRV, MV[O_STRV]);
     }
